@@ -3,6 +3,7 @@ package props
 import (
 	"encoding/json"
 	"fmt"
+	"io"
 	"strings"
 
 	"github.com/jf-tech/go-corelib/caches"
@@ -22,13 +23,42 @@ import (
 // against the all-enabled run.
 
 type c13Cfg struct {
-	NodePool  int `json:"node_pool"`       // 0 on, 1 off, 2 emptied before every Read, 3 Get always answers 'fresh', 4 Get answers 'oldest'
-	Transform int `json:"transform_cache"` // 0 on, 1 off
-	XPath     int `json:"xpath_cache"`     // 0 default, 1 capacity one
-	JS        int `json:"js_caches"`       // 0 all on, 1 all disabled, 2 program cache capacity one, 3 node-JSON cache capacity one and purged before every Read, 4 VM pool always answers 'fresh'
+	NodePool  int `json:"node_pool"`          // 0 on, 1 off, 2 emptied before every Read, 3 Get always answers 'fresh', 4 Get answers 'oldest'
+	Transform int `json:"transform_cache"`    // 0 on, 1 off
+	XPath     int `json:"xpath_cache"`        // 0 default, 1 capacity one
+	JS        int `json:"js_caches"`          // 0 all on, 1 all disabled, 2 program cache capacity one, 3 node-JSON cache capacity one and purged before every Read, 4 VM pool always answers 'fresh'
+	IDs       int `json:"node_ids,omitempty"` // 0 the process counter as it is; 1 input delivered one byte at a time and the counter moved up to the next multiple of 2^32 at every call of the input reader (IDs stay unique and increasing, their low 32 bits repeat); 2 the same delivery without touching the counter (what 1 is compared with)
+}
+
+// c13IDReader hands the input out one byte per call; with jump set it also moves the process-wide node ID
+// counter to call*2^32 first, so that nodes of one record get IDs that differ by multiples of 2^32.
+type c13IDReader struct {
+	s     string
+	pos   int
+	calls int64
+	jump  bool
+}
+
+func (r *c13IDReader) Read(p []byte) (int, error) {
+	r.calls++
+	if r.jump {
+		idr.VerifSetNodeID(r.calls << 32)
+	}
+	if r.pos >= len(r.s) {
+		return 0, io.EOF
+	}
+	if len(p) == 0 {
+		return 0, nil
+	}
+	p[0] = r.s[r.pos]
+	r.pos++
+	return 1, nil
 }
 
 func (c c13Cfg) String() string {
+	if c.IDs != 0 {
+		return fmt.Sprintf("nodepool=%d transformcache=%d xpathcache=%d js=%d nodeids=%d", c.NodePool, c.Transform, c.XPath, c.JS, c.IDs)
+	}
 	return fmt.Sprintf("nodepool=%d transformcache=%d xpathcache=%d js=%d", c.NodePool, c.Transform, c.XPath, c.JS)
 }
 
@@ -96,7 +126,11 @@ func c13RunOne(cfg c13Cfg, j c13Job) []string {
 	}
 	var out []string
 	pv, site := core.Safe(func() {
-		tr, err := schema.NewTransform("in", strings.NewReader(j.Input), &transformctx.Ctx{ExternalProperties: j.Ext})
+		var in io.Reader = strings.NewReader(j.Input)
+		if cfg.IDs != 0 {
+			in = &c13IDReader{s: j.Input, jump: cfg.IDs == 1}
+		}
+		tr, err := schema.NewTransform("in", in, &transformctx.Ctx{ExternalProperties: j.Ext})
 		if err != nil {
 			out = append(out, "NEWTRANSFORM "+err.Error())
 			return
@@ -131,8 +165,8 @@ func c13Configs(quick bool) []c13Cfg {
 	var out []c13Cfg
 	if quick {
 		// corners and single deviations from the all-enabled configuration
-		for _, c := range []c13Cfg{{1, 0, 0, 0}, {2, 0, 0, 0}, {3, 0, 0, 0}, {4, 0, 0, 0}, {0, 1, 0, 0}, {0, 0, 1, 0}, {0, 0, 0, 1}, {0, 0, 0, 2}, {0, 0, 0, 3}, {0, 0, 0, 4},
-			{1, 1, 1, 1}, {2, 1, 1, 3}, {3, 0, 1, 2}, {1, 1, 0, 4}, {4, 1, 1, 2}} {
+		for _, c := range []c13Cfg{{1, 0, 0, 0, 0}, {2, 0, 0, 0, 0}, {3, 0, 0, 0, 0}, {4, 0, 0, 0, 0}, {0, 1, 0, 0, 0}, {0, 0, 1, 0, 0}, {0, 0, 0, 1, 0}, {0, 0, 0, 2, 0}, {0, 0, 0, 3, 0}, {0, 0, 0, 4, 0},
+			{1, 1, 1, 1, 0}, {2, 1, 1, 3, 0}, {3, 0, 1, 2, 0}, {1, 1, 0, 4, 0}, {4, 1, 1, 2, 0}, {0, 0, 0, 0, 1}, {4, 0, 0, 0, 1}} {
 			out = append(out, c)
 		}
 		return out
@@ -142,13 +176,13 @@ func c13Configs(quick bool) []c13Cfg {
 			for xp := 0; xp <= 1; xp++ {
 				for js := 0; js <= 4; js++ {
 					if np+tc+xp+js > 0 {
-						out = append(out, c13Cfg{np, tc, xp, js})
+						out = append(out, c13Cfg{np, tc, xp, js, 0})
 					}
 				}
 			}
 		}
 	}
-	return out
+	return append(out, c13Cfg{IDs: 1}, c13Cfg{NodePool: 1, IDs: 1}, c13Cfg{NodePool: 4, IDs: 1}, c13Cfg{NodePool: 4, JS: 3, IDs: 1})
 }
 
 func c13Jobs(quick bool) []c13Job {
@@ -336,6 +370,12 @@ func c13Check(cs c13Case, base []string) (sig, detail string) {
 	if base == nil {
 		base = c13Run(c13Cfg{}, cs.Job)
 	}
+	if cs.Cfg.IDs == 1 {
+		// what the values of the node IDs may change is looked at under the same byte-by-byte delivery
+		ref := cs.Cfg
+		ref.IDs = 2
+		base = c13Run(ref, cs.Job)
+	}
 	got := c13Run(cs.Cfg, cs.Job)
 	d := c15Diff(got, base)
 	if d == "" {
@@ -343,6 +383,9 @@ func c13Check(cs c13Case, base []string) (sig, detail string) {
 	}
 	which := "several-caches"
 	n := 0
+	if cs.Cfg.IDs == 1 {
+		which, n = "node-id-values", n+1
+	}
 	if cs.Cfg.NodePool != 0 {
 		which, n = "node-pool", n+1
 	}
@@ -366,7 +409,7 @@ func c13Check(cs c13Case, base []string) (sig, detail string) {
 		// known finding: with the JavaScript switches as in the all-enabled run there is no difference
 		return "js:pooled-vm-keeps-changes-to-builtin-objects", fmt.Sprintf("job %s under [%s] differs from the all-enabled run at %s", cs.Job.Name, cs.Cfg, d)
 	}
-	return fmt.Sprintf("result-depends-on:%s:%s", which, name), fmt.Sprintf("job %s under [%s] differs from the all-enabled run at %s\nschema %s\ninput %s", cs.Job.Name, cs.Cfg, d, trunc2(cs.Job.Schema, 1200), trunc2(cs.Job.Input, 400))
+	return fmt.Sprintf("result-depends-on:%s:%s", which, name), fmt.Sprintf("job %s under [%s] differs from the reference run at %s\nschema %s\ninput %s", cs.Job.Name, cs.Cfg, d, trunc2(cs.Job.Schema, 1200), trunc2(cs.Job.Input, 400))
 }
 
 func init() {
